@@ -107,6 +107,10 @@ class FastHierarchyAnalyzer(HierarchyAnalyzerBase):
             # Generate graph
             taken_sel_opt = [X_INACTIVE_VALUE for _ in range(len(opt_idx_try))]
             while True:
+                # An infeasible graph cannot be completed: it is rejected below and the next neighbor is tried
+                if not graph.feasible:
+                    break
+
                 # Get next selection-choice node
                 choice_nodes = graph.get_ordered_next_choice_nodes()
                 if len(choice_nodes) == 0:
@@ -142,7 +146,7 @@ class FastHierarchyAnalyzer(HierarchyAnalyzerBase):
                     taken_sel_opt[i_single] = i_opt_single
 
             # Verify that indeed no selection_choices are left
-            if len([node for node in graph.choice_nodes if isinstance(node, SelectionChoiceNode)]) > 0:
+            if graph.feasible and len([node for node in graph.choice_nodes if isinstance(node, SelectionChoiceNode)]) > 0:
                 raise RuntimeError(f'Selection-choice nodes left for dv: {opt_idx}')
             return tuple(taken_sel_opt), graph
 
